@@ -22,6 +22,9 @@ type c09Case struct {
 	Events []xmodel.Event `json:"events"` // the abstract document
 	Bytes  []byte         `json:"bytes"`  // its serialisation, as given to ReadXml
 	Enc    string         `json:"enc,omitempty"`
+	// a malformed document given to ReadXml just before (its outcome is not judged here): one call's failure
+	// must not change what the next call returns
+	Before []byte `json:"before,omitempty"`
 }
 
 type c09BadCase struct {
@@ -291,6 +294,9 @@ func safeReadXML(b []byte) (c store.Cursor, err error) {
 
 func checkC09(c *c09Case) error {
 	model := xmodel.Build(c.Events)
+	if c.Before != nil {
+		safeReadXML(c.Before)
+	}
 	cur, err := safeReadXML(c.Bytes)
 	if pe, ok := err.(*panicError); ok {
 		return fmt.Errorf("ReadXml panicked: %v\n%s", pe.v, showBytes(c.Bytes))
@@ -367,6 +373,14 @@ func TestC09(t *testing.T) {
 			if len(b) <= 300 && utf8.Valid(b) {
 				st.Sample(string(b), map[string]any{"xml": string(b)})
 			}
+		}
+		if rapid.IntRange(0, 3).Draw(t, "failingCallBefore") == 0 {
+			bad := [][]byte{[]byte("<a><b>"), []byte("<a><b></a>"), []byte("<a>&nosuch;</a>"), []byte("<a b=1/>"), []byte("<a><![CDATA[x"), []byte("<a>\xff</a>"), []byte("\n<a>\n<b>\n")}
+			c.Before = bad[rapid.IntRange(0, len(bad)-1).Draw(t, "before")]
+			if len(b) > 8 && rapid.Bool().Draw(t, "truncatedSelf") {
+				c.Before = append([]byte{}, b[:len(b)*2/3]...)
+			}
+			st.Class("after-a-failing-call")
 		}
 		c09Tree.run(t, c)
 	})
